@@ -515,6 +515,11 @@ var alwaysZones = []string{"Australia/Lord_Howe", "America/Havana", "America/Sao
 	"America/Asuncion", "Asia/Beirut", "Africa/Cairo", "America/St_Johns", "Africa/Monrovia", "Pacific/Kwajalein",
 	"Antarctica/Casey", "America/Argentina/Catamarca", "Africa/Tunis", "America/Moncton"}
 
+// zones of the dense blocks: non-hour change, midnight gap, off-hour switch, midnight overlap,
+// multi-hour change
+var denseZones = []string{"Australia/Lord_Howe", "America/Havana", "America/St_Johns", "Africa/Tunis",
+	"America/Argentina/Catamarca", "Antarctica/Troll"}
+
 type nextGen struct {
 	ctx *core.Ctx
 }
@@ -669,6 +674,40 @@ func genNext(ctx *core.Ctx) {
 			idx := realTransitions(z)
 			for k := 0; k < 2 && len(idx) > 0; k++ {
 				around(z, idx[r.Intn(len(idx))], 4)
+			}
+		}
+		// dense blocks at one transition of each defect shape: EVERY fixed schedule x six of
+		// the deltas, so that a change of behaviour near such a transition (where oracle
+		// failures are expected and matched by known findings) still shows up as a
+		// difference from the model
+		for _, name := range denseZones {
+			z, err := loadTab(name)
+			if err != nil || len(z.Tr) == 0 {
+				continue
+			}
+			idx := realTransitions(z)
+			if name == "Australia/Lord_Howe" || name == "America/Havana" {
+				// recent transitions only: the older ones of these zones have other shapes
+				var recent []int
+				for _, i := range idx {
+					if z.Tr[i].Start > utc(1995, 1, 1, 0, 0, 0) {
+						recent = append(recent, i)
+					}
+				}
+				idx = recent
+			}
+			if len(idx) == 0 {
+				continue
+			}
+			tr := z.Tr[idx[r.Intn(len(idx))]]
+			for _, sc := range fixedScheds {
+				perm := append([]int64{}, deltas...)
+				for k := 0; k < 6; k++ {
+					j := k + r.Intn(len(perm)-k)
+					perm[k], perm[j] = perm[j], perm[k]
+					g.add(sc, z.Name, tr.Start+perm[k])
+					ctx.Sink.Count("next/dense-defect-shape")
+				}
 			}
 		}
 		// random zones, random transitions
@@ -865,19 +904,7 @@ func screen(ctx *core.Ctx) {
 	}
 }
 
-// mix64: the splitmix64 finalizer. hx.NewRand(seed) starts at seed*gamma + c and every draw
-// adds gamma, so the streams of seeds k and k+1 are the same stream shifted by one draw;
-// seeding with mix64(seed) puts different seeds at unrelated positions. Every random choice
-// still derives from the run's seed through ctx.R.
-func mix64(z uint64) uint64 {
-	z += 0x9E3779B97F4A7C15
-	z = (z ^ (z >> 30)) * 0xBF58476D1CE4E5B9
-	z = (z ^ (z >> 27)) * 0x94D049BB133111EB
-	return z ^ (z >> 31)
-}
-
 func c04Gen(ctx *core.Ctx) {
-	ctx.R = hx.NewRand(mix64(ctx.Seed))
 	if os.Getenv("C04_SCREEN") != "" {
 		screen(ctx)
 		return
